@@ -42,9 +42,24 @@ def _txt(toks):
     return " ".join(out)
 
 
+# attributes that change what is compiled or how a value behaves; everything else (`inline`, `must_use`, `allow`, `doc`,
+# `deprecated`, `track_caller`, `cold`, lint levels, `rustfmt::skip`, ..) is a hint to the compiler or to the reader
+MEANINGFUL_ATTRS = ("cfg", "cfg_attr", "derive", "repr", "default", "non_exhaustive", "macro_export", "macro_use", "path",
+                    "no_mangle", "export_name", "link", "link_name", "link_section", "global_allocator", "panic_handler",
+                    "no_std", "no_main", "recursion_limit", "feature", "target_feature", "used", "proc_macro")
+
+
 def _is_doc(attr):
+    """an attribute that is NOT part of the skeleton"""
     a = attr.replace(" ", "")
-    return a.startswith("#[doc") or a.startswith("#![doc")
+    body = a[3:] if a.startswith("#![") else a[2:]
+    name = ""
+    for ch in body:
+        if ch.isalnum() or ch == "_":
+            name += ch
+        else:
+            break
+    return name not in MEANINGFUL_ATTRS
 
 
 def _is_test(attrs):
